@@ -10,6 +10,7 @@ use serde_json::{json, Value};
 
 mod gen;
 mod preds;
+mod preds2;
 
 pub struct Case {
     pub text: String,
